@@ -453,13 +453,13 @@ def gen_history(rng, profile='main', maxlen=12):
     """structured, mostly valid histories inside the fragment where no known finding applies"""
     pool = content_pool(rng)
     names = list(pool)
-    # K10 region (a workspace symlink whose digest changes because text_or_binary changes is itself moved into the
-    # cache) is excluded from the generated stream: a history either uses symlinks or text_or_binary overrides.
-    # The same holds for hard links (the link's inode is renamed onto the new cache address, so two cache paths share one
-    # inode: harmless since the repair F23, but the model has no inode aliasing between cache objects; CORPUS F23).
-    use_symlink = rng.random() < 0.5
-    METHODS = ['copy', 'symlink', 'hardlink', 'reflink'] if use_symlink else ['copy', 'reflink']
-    TOBS = [None] if use_symlink else ['auto', 'text', 'binary']
+    # Hard links and text_or_binary overrides stay apart: when the digest of a hard-linked path changes with the mode, the link's
+    # inode is renamed onto the new cache address, so two cache paths share one inode: harmless since the repair F23, but the model
+    # has no inode aliasing between cache objects (CORPUS F23).  Symlinks combine with everything since the repair F31 (a link is
+    # dereferenced when it is carried; formerly known finding K10).
+    use_hardlink = rng.random() < 0.4
+    METHODS = ['copy', 'symlink', 'hardlink', 'reflink'] if use_hardlink else ['copy', 'symlink', 'reflink']
+    TOBS = [None] if use_hardlink else ['auto', 'text', 'binary']
     cfg = {'algo': rng.choice([0, 0, 0, 1, 2, 3]), 'method': rng.choice(['copy', 'copy'] + METHODS[1:]),
            'tob': rng.choice(['auto', 'auto', 'auto', 'text', 'binary'])}
     paths = rng.sample(PATHS, rng.randint(2, 5))
@@ -510,9 +510,8 @@ def gen_history(rng, profile='main', maxlen=12):
         elif r < 0.56:
             tt = [t for t in ts if t in on_disk] or ts     # carry-in on a deleted file panics (assertion): rare stream below
             if rng.random() < 0.05: tt = ts
-            # --force on a symlink entry is K10: excluded
             h.append({'op': 'carryin', 'targets': tt, 'tob': rng.choice([None, None, None] + TOBS),
-                      'force': False, 'no_parallel': rng.random() < 0.5})
+                      'force': rng.random() < 0.15, 'no_parallel': rng.random() < 0.5})
         elif r < 0.74:
             h.append({'op': 'recheck', 'targets': ts, 'method': optm, 'force': rng.random() < 0.25, 'no_parallel': rng.random() < 0.5})
         elif r < 0.80:
